@@ -139,6 +139,9 @@ fn run_handles(driver: DriverType, depth: usize, ch: &mut Chooser, log: &mut Vec
     let mut closes: Vec<CloseSlot> = Vec::new();
     let mut canary: Option<std::fs::File> = None;
     let mut closed_seen = false;
+    // bytes written by the peer / consumed by completed reads (a cancelled read may also consume one)
+    let mut written = 0usize;
+    let mut consumed = 0usize;
     // a close future dropped before its first poll keeps its handle forever (see the leak oracle)
     let leaked_closer = false;
     let noop = Waker::from(Arc::new(CountWaker(AtomicUsize::new(0))));
@@ -200,19 +203,31 @@ fn run_handles(driver: DriverType, depth: usize, ch: &mut Chooser, log: &mut Vec
                     s.read(Vec::with_capacity(4)).await
                 });
                 let p = rt.enter(|| fut.as_mut().poll(&mut Context::from_waker(&noop)));
-                if p.is_ready() {
-                    return fail("op-ready-without-data".into(), "read completed although the peer wrote nothing".into());
+                if let Poll::Ready(BufResult(r, _)) = p {
+                    // unread bytes of earlier writes may be left in the stream (taken by nobody yet)
+                    let cancelling = ops.iter().filter(|o| o.state == 1).count();
+                    if written <= consumed && cancelling == 0 {
+                        return fail("op-ready-without-data".into(), format!("read completed ({r:?}) although the peer wrote nothing that is still unread"));
+                    }
+                    consumed += r.unwrap_or(0);
+                    rt.enter(|| drop(fut));
+                    ops.push(OpSlot { fut: None, state: 2 });
+                    log.push(format!("start-op({arg})->completed-at-once"));
+                    continue;
                 }
                 ops.push(OpSlot { fut: Some(fut), state: 0 });
                 log.push(format!("start-op({arg})"));
             }
             4 => {
                 peer.write_all(b"x").unwrap();
+                written += 1;
                 harvest(&rt);
                 let mut fut = ops[arg].fut.take().unwrap();
                 let p = rt.enter(|| fut.as_mut().poll(&mut Context::from_waker(&noop)));
                 match p {
-                    Poll::Ready(BufResult(Ok(1), _)) => {}
+                    Poll::Ready(BufResult(Ok(n), _)) if n >= 1 => {
+                        consumed += n;
+                    }
                     Poll::Ready(BufResult(r, _)) => {
                         // with two pending reads on one stream either may take the byte
                         log.push(format!("complete-op({arg})->{r:?}"));
@@ -268,8 +283,9 @@ fn run_handles(driver: DriverType, depth: usize, ch: &mut Chooser, log: &mut Vec
                     Poll::Ready(r) => {
                         closes[arg].done = true;
                         if h + o > 0 {
+                            let cause = if other_closers > 0 { "another-close-already-waiting" } else { "other" };
                             return fail(
-                                "close-completed-early".into(),
+                                format!("close-completed-early:{cause}"),
                                 format!("close() completed while {h} other handle(s) and {o} unfinished operation(s) still hold the descriptor"),
                             );
                         }
